@@ -10,7 +10,7 @@ import os
 import shutil
 import subprocess
 import os as _os
-_os.environ.setdefault('VERIF_ITEM_S', '120')     # seeded trees may make single work items very slow
+_os.environ.setdefault('VERIF_ITEM_S', '420')     # seeded trees may make single work items very slow
 import sys
 
 wt, prop, name = sys.argv[1:4]
